@@ -106,9 +106,18 @@ class MemoryWorkflowStore(AbstractWorkflowStore):
 
     async def update(self, handler: PersistentHandler) -> None:
         self.handlers[handler.handler_id] = handler
+        # Exactly one queue entry per handler that is currently terminal: a repeated
+        # terminal update moves it to the back, a non-terminal upsert removes it.
+        self._forget_terminal(handler.handler_id)
         if is_terminal_status(handler.status):
             self._terminal_queue.append(handler.handler_id)
             self._evict_oldest_completed()
+
+    def _forget_terminal(self, handler_id: str) -> None:
+        try:
+            self._terminal_queue.remove(handler_id)
+        except ValueError:
+            pass
 
     async def delete(self, query: HandlerQuery) -> int:
         to_delete = [
@@ -118,6 +127,7 @@ class MemoryWorkflowStore(AbstractWorkflowStore):
         ]
         for handler_id in to_delete:
             del self.handlers[handler_id]
+            self._forget_terminal(handler_id)
         return len(to_delete)
 
     def _evict_oldest_completed(self) -> None:
@@ -230,7 +240,11 @@ class MemoryWorkflowStore(AbstractWorkflowStore):
                     continue
 
             for event in batch:
-                yield event
                 cursor += 1
+                if event.sequence <= after_sequence:
+                    # The requested cursor was beyond the end of the log when the
+                    # subscription started: still only events above it are wanted.
+                    continue
+                yield event
                 if self._is_terminal_event(event):
                     return
